@@ -156,23 +156,8 @@ def independent(a, b, lo, hi, k):
     # for ranges beyond 2^53; the native sweep runs next_int on single-value, negative and huge ranges, twin
     # streams, reset and restore on the real class
     def native_sweep(table):
-        import json, os, subprocess, tempfile
-        verif = os.path.dirname(os.path.dirname(os.path.abspath(__file__)))
-        rec = {"function": "MersenneTwister.next_int", "obligation": "bounded-sweep", "property": "C12"}
-        fd, path = tempfile.mkstemp(suffix=".json")
-        os.write(fd, json.dumps(rec).encode())
-        os.close(fd)
-        env = dict(os.environ)
-        env["PYTHONPATH"] = os.path.join(os.environ.get("PYVC_REPO", "/repo"), "src") + os.pathsep + verif
-        try:
-            p = subprocess.run([os.environ.get("PYVC_NATIVE_PY", "/venv/bin/python"), "-W", "ignore",
-                                os.path.join(verif, "replay", "driver.py"), path], capture_output=True, text=True, env=env, timeout=120)
-            line = [l for l in p.stdout.strip().splitlines() if l.startswith("{")][-1]
-            res = json.loads(line)
-        except Exception as e:
-            return [("BOUNDED: native sweep of the stream class could not run", False, str(e)[:200])]
-        finally:
-            os.unlink(path)
+        from pyvc.ground import run_native
+        res = run_native({"function": "MersenneTwister.next_int", "obligation": "bounded-sweep", "property": "C12"})
         return [("BOUNDED: twin/reset/restore and integer-range sweep incl. ranges beyond 2^53 (5 seeds x 120 interleaved draws)",
                  not res.get("reproduced"), res.get("observed") or res.get("note"))]
     reg.ground_obligation("BOUNDED stand-in: native sweep of MersenneTwister (huge integer ranges, float rounding)", C12, native_sweep)
